@@ -207,7 +207,7 @@ _rr_case = st.fixed_dictionaries(
 class ProdEng(_prod.PRODEngine):
     """the anchored mechanism 'producer keeps one partitioner per topic and passes the current partition list': selections observed
     through observing partitioner subclasses while the real Producer runs into leader moves, error codes and metadata reloads"""
-    MACROS = ["partial", "leadermove", "leadermove", "sendduringretry", "burst", "burst"]
+    MACROS = ["partial", "leadermove", "leadermove", "leaderless", "leaderless", "sendduringretry", "burst", "burst"]
     MACRO_ONE_IN = 3
 
     def nontrivial(self):
